@@ -12,7 +12,7 @@ NEEDS = ('threads', 'proc')
 PROC_READY = True
 QUICK = dict(runs=27000, wall=85)
 THOROUGH = dict(runs=500000, wall=1200)
-RULE = ('scenario = n<=24 unique inputs (opaque iterator, list, tuple, range or generator), per-element virtual service time in {0,1,2,5,20ms} (so every completion order is reachable), '
+RULE = ('scenario = n<=24 unique inputs (opaque iterator, list, tuple, range or generator; for re-iterable inputs optionally two overlapping iterations of the same stream object), per-element virtual service time in {0,1,2,5,20ms} (so every completion order is reachable), '
         'failing subset, flags return_x/return_exceptions, optional preprocessor rejecting a subset, concurrency 1..4, capacity in '
         '{1,2,3,5,n+1}; driver = fifo_stream over a thread pool, fifo_stream whose futures are completed by a separate thread in a '
         'decision-chosen order, Stream.parmap(executor=thread), Parmapper(executor=thread|process[simulated process boundary]) '
@@ -52,6 +52,11 @@ def gen(rng, tier):
     if n and rng.random() < 0.15:
         # None (a falsy value) is a legitimate result
         st['none'] = {'idx': sorted(rng.sample(range(n), min(n, rng.choice([1, 2, n]))))}
+    if n and rng.random() < 0.12:
+        # an exception OBJECT as a return value (an audit / pass-through stage): a value like any other, also without return_exceptions
+        cand = [i for i in range(n) if not (st.get('fail') and i in st['fail']['idx']) and not (st.get('none') and i in st['none']['idx'])]
+        if cand:
+            st['ret_exc'] = {'idx': sorted(rng.sample(cand, min(len(cand), rng.choice([1, 2])))), 'exc': rng.choice(['ExcA', 'KeyError', 'ExcC'])}
     src_delays = [rng.choice([0, 0, 0, 0.001, 0.004])]
     if n and rng.random() < 0.4:
         # a source that stalls once for a "human-scale" time (virtual time is free): polling loops, watchdogs and idle timeouts
@@ -66,7 +71,10 @@ def gen(rng, tier):
     if not any(src_delays) and rng.random() < 0.3:
         # "any input sequence": sized containers and plain generators take other code paths than an opaque iterator
         src_kind = rng.choice(['list', 'tuple', 'range', 'gen'])
-    sc = {'n': n, 'mode': mode, 'stages': [st], 'src_delays': src_delays, 'src_kind': src_kind,
+    overlap = None
+    if src_kind in ('list', 'tuple', 'range') and mode in ('parmap_thread', 'parmapper') and rng.random() < 0.5:
+        overlap = rng.randrange(0, n + 1)
+    sc = {'n': n, 'mode': mode, 'stages': [st], 'src_delays': src_delays, 'src_kind': src_kind, 'overlap': overlap,
           'consumer_delay': rng.choice([0, 0, 0, 0.002, 0.03]) if any(st['delays']) or len(src_delays) == 1 else 0}
     cfg = swarm(rng, racy=0.15, line=0.2, max_time=200.0)
     if mode == 'parmap_process':
@@ -81,15 +89,17 @@ def shrink(sc):
     if sc['n'] > 0:
         n = sc['n'] - 1
         st2 = dict(st)
-        for key in ('fail', 'pre_fail', 'none'):
+        for key in ('fail', 'pre_fail', 'none', 'ret_exc'):
             if st2.get(key):
                 st2[key] = dict(st2[key], idx=[i for i in st2[key]['idx'] if i < n])
         yield dict(sc, n=n, stages=[st2])
     if any(st['delays']):
         yield dict(sc, stages=[dict(st, delays=[0])])
+    if sc.get('overlap') is not None:
+        yield dict(sc, overlap=None)
     if sc.get('src_kind', 'iter') != 'iter':
-        yield dict(sc, src_kind='iter')
-    for key in ('return_x', 'return_exceptions', 'pre', 'none'):
+        yield dict(sc, src_kind='iter', overlap=None)
+    for key in ('return_x', 'return_exceptions', 'pre', 'none', 'ret_exc'):
         if st.get(key):
             st2 = dict(st)
             st2[key] = False
@@ -111,7 +121,7 @@ def nontrivial(sim, sc, obs):
 
 
 # worker function for the process executor: must be picklable and keep no module state
-def proc_fn(x, delays=None, fail=None, none=None, **kw):
+def proc_fn(x, delays=None, fail=None, none=None, ret_exc=None, **kw):
     if delays:
         d = delays[streams.idx_of(x) % len(delays)]
         if d:
@@ -120,6 +130,9 @@ def proc_fn(x, delays=None, fail=None, none=None, **kw):
         streams._raise(fail['exc'], x)
     if none and streams.idx_of(x) in none['idx']:
         return None
+    if ret_exc and streams.idx_of(x) in ret_exc['idx']:
+        from checks.common import make_exc
+        return make_exc(ret_exc['exc'], x)
     return x + streams.PAR_ADD
 
 
@@ -139,7 +152,7 @@ def run(sim, sc):
         pulled_view = _P
     else:
         pulled_view = source
-    fn = streams.StageFn(sim, streams.PAR_ADD, st['delays'], st.get('fail'), name='work', none=st.get('none'))
+    fn = streams.StageFn(sim, streams.PAR_ADD, st['delays'], st.get('fail'), name='work', none=st.get('none'), ret_exc=st.get('ret_exc'))
     flags = dict(return_x=bool(st.get('return_x')), return_exceptions=bool(st.get('return_exceptions')))
     pre = streams.preproc_fn(st.get('pre_fail')) if st.get('pre') else None
     done_order = []
@@ -173,6 +186,9 @@ def run(sim, sc):
                                 streams._raise(st['fail']['exc'], x)
                             except Exception as e:
                                 f.set_exception(e)
+                        elif st.get('ret_exc') and streams.idx_of(x) in st['ret_exc']['idx']:
+                            from checks.common import make_exc
+                            f.set_result(make_exc(st['ret_exc']['exc'], x))
                         else:
                             f.set_result(None if (st.get('none') and streams.idx_of(x) in st['none']['idx']) else x + streams.PAR_ADD)
                 else:
@@ -182,20 +198,44 @@ def run(sim, sc):
         th.start()
         it = fifo_stream(source, work, capacity=st['cap'], preprocessor=pre, **flags)
     elif mode == 'parmap_thread':
-        it = iter(Stream(source).parmap(fn, executor='thread', concurrency=st['c'], **flags))
+        stream_obj = Stream(source).parmap(fn, executor='thread', concurrency=st['c'], **flags)
+        it = iter(stream_obj)
     elif mode == 'parmapper':
-        it = iter(Parmapper(source, fn, executor='thread', concurrency=st['c'], preprocessor=pre, **flags))
+        stream_obj = Parmapper(source, fn, executor='thread', concurrency=st['c'], preprocessor=pre, **flags)
+        it = iter(stream_obj)
     elif mode == 'parmap_process':
         it = iter(Parmapper(source, proc_fn, executor='process', concurrency=st['c'], preprocessor=pre,
-                            delays=st['delays'], fail=st.get('fail'), none=st.get('none'), **flags))
+                            delays=st['delays'], fail=st.get('fail'), none=st.get('none'), ret_exc=st.get('ret_exc'), **flags))
     else:
         raise ValueError(mode)
 
     outs = []
     raised = None
     cd = sc['consumer_delay']
+    overlap = sc.get('overlap') if (kind in ('list', 'tuple', 'range') and mode in ('parmap_thread', 'parmapper')) else None
+    pass_b = None
+    if overlap is not None:
+        # two iterations of the SAME stream object over a re-iterable input, overlapping in time: the first one is opened and
+        # advanced k steps, a second one runs from start to end, then the first one is finished. Each must be a complete, ordered pass.
+        try:
+            for _ in range(overlap):
+                outs.append(streams.norm_out(next(it)))
+        except StopIteration:
+            pass
+        except Exception as e:
+            raised = streams.exc_obs(e)
+            e = None
+        outs_b, raised_b = [], None
+        try:
+            for y in stream_obj:
+                outs_b.append(streams.norm_out(y))
+        except Exception as e:
+            raised_b = streams.exc_obs(e)
+            e = None
+        pass_b = (outs_b, raised_b)
+        sim.count('overlapping_iterations')
     try:
-        for y in it:
+        for y in (it if raised is None else ()):
             outs.append(streams.norm_out(y))
             if cd:
                 time.sleep(cd)
@@ -223,8 +263,14 @@ def run(sim, sc):
             sim.violation('failure:wrong-exception', {'raised': raised, 'want': want_exc})
     elif raised is not None:
         sim.violation('failure:unexpected-exception', {'raised': raised})
+    if pass_b is not None:
+        ob, rb = pass_b
+        wb = want_out if want_exc is None else want_out
+        if ob != wb[:len(ob)] or (rb is None and want_exc is None and len(ob) != len(wb)) or (want_exc is not None and (rb is None or len(ob) != len(wb))) \
+                or (want_exc is None and rb is not None):
+            sim.violation('overlap:second-iteration-of-the-same-stream-differs-from-a-complete-pass', {'got': ob, 'raised': rb, 'want': wb, 'want_exc': want_exc})
     # call log: permutation of the accepted inputs (thread modes; the process function cannot log)
-    if mode != 'parmap_process':
+    if mode != 'parmap_process' and pass_b is None:
         rejected = set(st['pre_fail']['idx']) if st.get('pre_fail') else set()
         calls = [streams.idx_of(x) for x in fn.calls]
         dup = sorted(i for i in set(calls) if calls.count(i) > 1)
